@@ -370,11 +370,21 @@ func alphabet(m *procbuilder.Machine, cfg config) []letter {
 	for _, v := range boundary(int(spec.Rsize)) {
 		nums[v] = true
 	}
-	for v := uint64(0); v < 1<<spec.O; v++ {
-		nums[v] = true
+	// ROM and RAM addresses: all of them up to 4 address bits, the boundary values (0,1,2, 2^k-1, 2^k, max) above
+	small := func(bits uint8) {
+		if bits <= 4 {
+			for v := uint64(0); v < 1<<bits; v++ {
+				nums[v] = true
+			}
+			return
+		}
+		for _, v := range boundary(int(bits)) {
+			nums[v] = true
+		}
 	}
-	for v := uint64(0); spec.L > 0 && v < 1<<spec.L; v++ {
-		nums[v] = true
+	small(spec.O)
+	if spec.L > 0 {
+		small(spec.L)
 	}
 	if cfg.Imm == "all" && spec.Rsize <= 8 {
 		for v := uint64(0); v < 1<<spec.Rsize; v++ {
@@ -765,6 +775,18 @@ func main() {
 				}
 				add(fmt.Sprintf("alone-%s-rs%d", op, rs), bmgen.ArchSpec{Rsize: uint8(rs), R: 1, N: n, M: mo, L: l, O: 2, Ops: set}, d, 100000, "boundary", iv)
 			}
+		}
+	}
+	// words wider than the register-carrying instructions: with O > R+Rsize the jumps are the longest instructions
+	// and every other instruction is left-aligned in a wider ROM word (its fields no longer end at bit 0)
+	{
+		ops := table.opsAt(8)
+		if run.Thorough() {
+			add("wideword-rs8-R1-O11", bmgen.ArchSpec{Rsize: 8, R: 1, N: 1, M: 1, L: 1, O: 11, Ops: ops}, 3, 300000, "boundary", []uint64{0, 0xa5})
+			add("wideword-rs8-R2-O13", bmgen.ArchSpec{Rsize: 8, R: 2, N: 2, M: 2, L: 2, O: 13, Ops: ops}, 2, 300000, "boundary", []uint64{0, 0xa5})
+			add("wideword-rs16-R1-O20", bmgen.ArchSpec{Rsize: 16, R: 1, N: 1, M: 1, L: 1, O: 20, Ops: table.opsAt(16)}, 2, 300000, "boundary", []uint64{0, 0x8025})
+		} else {
+			add("wideword-rs8-R1-O11", bmgen.ArchSpec{Rsize: 8, R: 1, N: 1, M: 1, L: 1, O: 11, Ops: ops}, 3, 60000, "boundary", []uint64{0, 0xa5})
 		}
 	}
 	// closure at Rsize 8: every register value reachable through rset with all 256 immediates
